@@ -154,6 +154,14 @@ def r18_2(ctx: Ctx) -> None:
         before = any(cfg.reaches(pn, q.node_for(f, w)) for w in wcalls)
         ctx.check(not before, "R18.2", f, p, "'post' is not followed by the worker call", "the post-processing event can be emitted before extraction")
     # nothing is put after 'post' in _extract; first event is 'pre'
+    # a sentinel that stops the reporter of an EARLIER call (posted under `self.reporterd is not None`, before this call's reporter is started) is not
+    # an event of this extraction
+    rstarts = [n for n in walk(f.node) if isinstance(n, ast.Assign) and any(norm(t) == "self.reporterd" for t in n.targets) and isinstance(n.value, ast.Call)]
+    def stops_previous(c) -> bool:
+        facts = q.facts_at(f, c)
+        known = q.known_not_none(facts, ast.parse("self.reporterd", mode="eval").body)
+        return known and bool(rstarts) and all(cfg.reaches(q.node_for(f, c), q.node_for(f, r)) and not cfg.reaches(q.node_for(f, r), q.node_for(f, c)) for r in rstarts)
+    ps = [(t, c) for t, c in ps if not (t == "<sentinel>" and stops_previous(c))]
     for t, c in ps:
         if t not in ("pre", "post"):
             ctx.fail("R18.2", f, c, f"unexpected '{t}' event emitted by _extract outside the worker")
@@ -328,7 +336,38 @@ def r18_5(ctx: Ctx) -> None:
                   construct="is_alive check")
 
 
+def r18_6(ctx: Ctx) -> None:
+    """one reporter at a time: close() posts ONE sentinel and joins the thread in `self.reporterd`.  _extract therefore may start a
+    new reporter thread only when no earlier one can still be alive - under the fact `self.reporterd is None`, or after the previous one
+    has been sent its sentinel and joined.  Otherwise extractall(cb); reset(); extractall(cb) leaves two threads on one queue, the single
+    sentinel ends one of them and close() waits for the other for ever (events of the second call may go to either)."""
+    f = shared.szf(ctx, "_extract")
+    cfg = cfg_of(f.node)
+    starts = [n for g, n, via in q.deep_nodes(ctx, f) if g is f and isinstance(n, ast.Assign) and any(norm(t) == "self.reporterd" for t in n.targets)
+              and isinstance(n.value, ast.Call) and attr_tail(n.value) in ("Thread",)]
+    ctx.floor("R18.6", len(starts), 1, "reporter thread creations in _extract")
+    for a in starts:
+        an = q.node_for(f, a)
+        facts = q.facts_at(f, a)
+        none_known = any((nt := q.is_none_test(cd)) is not None and norm(nt[0]) == "self.reporterd" and nt[1] == pol for cd, pol in facts)
+        joins = [c for c in q.calls(f) if attr_tail(c) == "join" and "reporterd" in norm(c.func.value)]
+        # every path to the start passes the join of the previous reporter, or an edge on which `self.reporterd` is known to be None
+        none_edges = []
+        for t in cfg.nodes:
+            if t.kind != "test":
+                continue
+            nt = q.is_none_test(t.ast)
+            if nt is not None and norm(nt[0]) == "self.reporterd":
+                none_edges += [e for e in t.succ if e.kind == ("true" if nt[1] else "false")]
+        stopped = bool(joins) and not cfg.reaches(cfg.entry, an, avoid=[q.node_for(f, j) for j in joins] + none_edges)
+        ctx.check(none_known or stopped, "R18.6", f, a, "a new reporter thread is started only when no earlier one is alive",
+                  "_extract starts a reporter thread on every call with a callback without stopping the one started by an earlier call: two threads read one queue, close() posts a "
+                  "single sentinel and joins only the last thread - extractall(cb); reset(); extractall(cb); close() never returns, and events reach either callback",
+                  construct="second reporter thread")
+
+
 def run(ctx: Ctx) -> None:
+    r18_6(ctx)
     r18_1(ctx)
     r18_2(ctx)
     r18_3(ctx)
